@@ -20,14 +20,8 @@ variable (P : PyChars)
 nesting depth of braces, quotes inside braces inside quotes, `=`/`,` inside braces, any junk
 between blocks — the splitter returns exactly the expected blocks: no failed block, nothing merged,
 nothing dropped. -/
-theorem split_correct (d : Doc) (h : d.WF P) : splitToks P d.toks = .ok (d.expected P (-1)) := by
-  obtain ⟨hhead, hitems⟩ := h
-  unfold splitToks Doc.toks
-  rw [show (d.head ++ d.items.flatMap fun x => x.1.toks ++ x.2) = d.head ++ itemsToks d.items from rfl,
-    run_append, run_junk P d.head init [] (-1) rfl rfl hhead,
-    finish_run_items P d.items _ (d.head.reverse ++ []) (-1) rfl rfl hitems]
-  simp only [init, List.reverse_nil, List.nil_append, List.append_nil, Doc.expected]
-  rw [itemsOut_eq]
+theorem split_correct (d : Doc) (h : d.WF P) : splitToks P d.toks = .ok (d.expected P (-1)) :=
+  splitToks_doc P d h
 
 /-- **C02 (character level).** If the text lexes to the tokens of a derivation, `split` returns the
 expected blocks.  (That every canonical derivation is the lexing of its own flattening is the
